@@ -82,6 +82,19 @@ func c07FaultScens(tier string) []e1Scen {
 			}
 		}
 	}
+	// ... and (MPEG-TS) after a Write that failed because the finished segment could not be flushed to a full device, or with
+	// an open segment that cannot be flushed any more when Close is called
+	for _, tracks := range [][]string{{"h264"}, {"h264", "aac44"}} {
+		cfg := mcfg("mpegts", true, 3, tracks...)
+		word := []sym{{T: 0, D: "q", K: "R"}, {T: 0, D: "q", K: "n"}, {T: 0, D: "q", K: "n"}, {T: 0, D: "q", K: "n"}}
+		for _, fa := range []int{1, 2, 4} {
+			out = append(out, e1Scen{Prop: "C07", Cfg: cfg, Alpha: word, Mode: "flushfault", Len: 4*fa + 1, FaultAt: fa, Name: fmt.Sprintf("close-after-flush-fault-%d", fa)})
+			out = append(out, e1Scen{Prop: "C07", Cfg: cfg, Alpha: word, Mode: "flushfault", Len: 4*fa + 3, FaultAt: fa, Name: fmt.Sprintf("close-after-flush-fault-%d+2", fa)})
+		}
+		for _, n := range []int{1, 2, 6, 11} {
+			out = append(out, e1Scen{Prop: "C07", Cfg: cfg, Alpha: word, Mode: "flushfault", Len: n, FaultAt: 0, Name: fmt.Sprintf("close-with-unflushable-segment-after-%d", n)})
+		}
+	}
 	// ... and after a Write that failed in the middle of a part rotation (Low-Latency: the open part could not be written
 	// to storage), at several part indices, RAM and Directory storage
 	for _, disk := range []bool{false, true} {
